@@ -1026,3 +1026,75 @@ impl<P: Protocol> GenericCloud<MockDevice, P, MockSocket, MockTimeSource> {
         self.socket.address().unwrap().port() as usize
     }
 }
+
+#[cfg(dswd_vpncloud_verif)]
+pub struct VerifPeer {
+    pub addr: SocketAddr,
+    pub node_id: NodeId,
+    pub timeout: Time,
+    pub peer_timeout: u16,
+    pub has_init: bool,
+    pub algorithm: &'static str,
+}
+
+#[cfg(dswd_vpncloud_verif)]
+impl<D: Device, P: Protocol, S: Socket, TS: TimeSource> GenericCloud<D, P, S, TS> {
+    pub fn verif_socket(&mut self) -> &mut S {
+        &mut self.socket
+    }
+
+    pub fn verif_device(&mut self) -> &mut D {
+        &mut self.device
+    }
+
+    pub fn verif_socket_event(&mut self, buffer: &mut MsgBuffer) {
+        self.handle_socket_event(buffer)
+    }
+
+    pub fn verif_device_event(&mut self, buffer: &mut MsgBuffer) {
+        self.handle_device_event(buffer)
+    }
+
+    pub fn verif_housekeep(&mut self) -> Result<(), Error> {
+        self.housekeep()
+    }
+
+    pub fn verif_send_close(&mut self) -> Result<(), Error> {
+        let mut buffer = MsgBuffer::new(SPACE_BEFORE);
+        self.broadcast_msg(MESSAGE_TYPE_CLOSE, &mut buffer)
+    }
+
+    pub fn verif_node_id(&self) -> NodeId {
+        self.node_id
+    }
+
+    pub fn verif_peers(&self) -> Vec<VerifPeer> {
+        self.peers
+            .iter()
+            .map(|(addr, p)| VerifPeer {
+                addr: *addr,
+                node_id: p.node_id,
+                timeout: p.timeout,
+                peer_timeout: p.peer_timeout,
+                has_init: p.crypto.has_init(),
+                algorithm: p.crypto.algorithm_name(),
+            })
+            .collect()
+    }
+
+    pub fn verif_pending(&self) -> Vec<SocketAddr> {
+        self.pending_inits.keys().copied().collect()
+    }
+
+    pub fn verif_own_addresses(&self) -> Vec<SocketAddr> {
+        self.own_addresses.iter().copied().collect()
+    }
+
+    pub fn verif_next_peers(&self) -> Time {
+        self.next_peers
+    }
+
+    pub fn verif_table(&self) -> &ClaimTable<TS> {
+        &self.table
+    }
+}
